@@ -14,6 +14,46 @@ CLAIMED = {
    note="Trusted: Coq kernel; hand-written model RectDefs.v (tied by differential testing, not proof); extraction with ExtrOcamlBasic; "
         "no int overflow. No axioms (Print Assumptions: closed under the global context).",
    design="6/C06", technique="Coq proof (case analysis + lia) over an executable Gallina model; extracted-model vs C differential check; extracted boolean spec as oracle"),
+ "C05": dict(
+   text="Machine-checked proof (Coq 8.16, no axioms) of TOTAL correctness of the model of src/rectset.c for every finite history of add/subtract/"
+        "translate/clear with non-empty rectangles: the model terminates (C05_add_terminates, C05_subtract_terminates, C05_total), keeps the array "
+        "non-empty / pairwise disjoint / sorted by (top,left), covers exactly the reference region (C05_history by induction over arbitrary op lists), "
+        "and contains/intersects are exact (C05_contains, C05_intersects). The oracle judging the C's output is proved sound (C05_oracle_sound). "
+        "Model tied to /repo's rectset.c on every run: all <=3-op histories on a 4x4 grid, lattice-aligned and random histories, every query rectangle, ASan/UBSan.",
+   note="Holds for the repaired code (fix: e28fb20); the pinned code is refuted in Coq by C05_refuted_stale_rect and the witness is replayed on every run. "
+        "Trusted: Coq kernel; hand-written model RectSetDefs.v tied by differential testing; extraction (ExtrOcamlBasic); no int overflow; malloc succeeds. "
+        "Invariant includes two structural clauses (sep, novm) beyond the property text; they are established by add, needed for exactness of contains.",
+   design="6/C05", technique="Coq invariant + refinement to a cell-set region over op lists; well-founded measure for termination; extracted-model vs C differential check; proved-sound extracted oracle"),
+ "C07": dict(
+   text="Machine-checked proof (Coq 8.16, no axioms) that the model of src/utf8.c + src/unicode.h satisfies the property for ALL byte strings (well-formed "
+        "or not, NUL-terminated or length-bounded), all initial positions, all limit combinations and all code points < 0x200000: counting = longest prefix "
+        "of grapheme units within every limit (C07_count_is_spec), counters consistent, resumable, never reads past the bound/terminator (Fault-ing accessor + "
+        "non-interference), error value exactly at control/DEL/invalid lead/truncated sequence, put-then-count round trip on the whole domain (symbolic), "
+        "binary search = membership for the width tables RE-TRANSLATED from the sources on every run. Tie: exhaustive over all 2^21 code points, all byte "
+        "strings of length <=2 and length 3 over a class-boundary alphabet, structured/malformed/resumption cases, each string ending at a PROT_NONE guard page.",
+   note="Trusted: Coq kernel; hand-written model Utf8Defs.v (tied by differential testing); Utf8Spec.v as the reading of the property (errors judged on decoded "
+        "values: a non-continuation byte in continuation position is payload, as t/01utf8.c pins); tools/tables/width.py; extraction; 0 <= pos->bytes <= len. "
+        "Width tables are taken as given (no Unicode database in the sandbox) except for the widths the library itself documents (C07_documented_widths).",
+   design="6/C07", technique="Coq refinement proof (byte loop with Fault-ing reads = walk over decoded units = longest fitting prefix); tables re-translated from C and re-checked by vm_compute; differential check with guard pages; extracted boolean spec as oracle"),
+ "C11": dict(
+   text="Machine-checked proof (Coq 8.16, no axioms) over the model of term.c's output path, for every buffer size (incl. none) and every history of "
+        "writes, formatted writes and flushes: delivered chunks ++ pending = the unbuffered stream (C11_stream, C11_transparent), every chunk 0 < len <= cap "
+        "(C11_chunk_bound_run), flush drains (C11_flush_drains), the chunk loop terminates (C11_terminates); the extracted checker is proved sound "
+        "(C11_checker_sound). Tie: exhaustive sizes 0..6 x <=4 writes of 0..8 bytes x flush masks, random large histories, and the descriptor path through a packet-mode pipe.",
+   note="Assumes the buffer is resized only while nothing is pending (as the property states) and that an output function or descriptor is set; vsnprintf and "
+        "short write(2) are outside the model. Trusted: Coq kernel; hand-written model OutBufDefs.v tied by differential testing; extraction.",
+   design="6/C11", technique="Coq invariant (pending < cap) + induction over histories; refinement to the byte stream; extracted checker proved sound w.r.t. the model; differential check against the C"),
+ "C19": dict(
+   text="Machine-checked proof (Coq 8.16, no axioms) about the model of src/pen.c: set-then-get/has for all representable values with frame condition, clear, "
+        "defaults, attribute-wise law of copy with/without overwrite incl. the RGB secondary (C19_copy), clone equivalence, equiv = 'every attribute reads "
+        "the same' hence an equivalence relation (C19_equiv_iff, C19_equiv_equivalence), RGB needs an index and is dropped on re-set, colour descriptions "
+        "accepted = direct calls / rejected = no effect for EVERY string (C19_desc_*), and refinement of every history over three pens to a dictionary spec "
+        "(C19_refines). Bit-field widths and the colour-name table are RE-TRANSLATED from pen.c on every run. Tie: value sweeps -300..600 per setter, copy "
+        "scope, description strings exhaustive over small alphabets, random histories, all getters dumped after each op.",
+   note="Holds for the repaired code (fix: 5a9f7aa, names were matched as prefixes); pinned behaviour refuted by C19_desc_unfixed_refuted, witnesses replayed "
+        "every run. sscanf (%d, %2hhx) is modelled after glibc and compared on every run; event bindings are not modelled. Trusted: Coq kernel; model PenDefs.v; "
+        "tools/tables/colours.py; extraction.",
+   design="6/C19", technique="Coq algebraic laws on a record model with explicit bit-field wraps; refinement of histories to a dictionary spec; grammar recogniser proved sound against the parser; differential check; extracted dictionary checker as oracle"),
 }
 
 NA_REASON = "not yet built in this revision: model/proof/correspondence for this property are scheduled (DESIGN.md section 10)"
